@@ -850,8 +850,9 @@ mutual
       let conds := conds.append (.cons (.ifCond pos condExpr body) .nil)
       backup
       let t ← next
-      if t.typ == .tElseif then ifLoop fuel pos isElse conds
-      else if t.typ == .tElse then ifLoop fuel pos true conds
+      -- a second {else}, or an {elseif} behind the {else}, is rejected (/repo d0c22f5)
+      if t.typ == .tElseif then (if isElse then unexpected t else ifLoop fuel pos isElse conds)
+      else if t.typ == .tElse then (if isElse then unexpected t else ifLoop fuel pos true conds)
       else if t.typ == .tIfEnd then do
         let _ ← expect .tRightDelim
         pure (.ifc pos conds)
@@ -885,23 +886,27 @@ mutual
     | fuel + 1, token, endT => do
       let switchValue ← parseExpr0 pf ef
       let _ ← expect .tRightDelim
-      switchLoop fuel token.pos switchValue endT .nil
+      switchLoop fuel token.pos switchValue endT false .nil
 
-  def switchLoop : Nat → Nat → Expr → ItemType → NodeList → FP Node
-    | 0, _, _, _, _ => ffail .fuelOut
-    | fuel + 1, pos, value, endT, cases => do
+  /-- the loop of `parseSwitch`; `sawDefault`: a {default} has been read (a second one is rejected,
+      /repo d0c22f5) -/
+  def switchLoop : Nat → Nat → Expr → ItemType → Bool → NodeList → FP Node
+    | 0, _, _, _, _, _ => ffail .fuelOut
+    | fuel + 1, pos, value, endT, sawDefault, cases => do
       let tok ← next
-      if tok.typ == .tLeftDelim then switchLoop fuel pos value endT cases
+      if tok.typ == .tLeftDelim then switchLoop fuel pos value endT sawDefault cases
       else if tok.typ == .tText then
-        -- ignore spaces between tags. text is an error though.
-        if allSpace tok.val then switchLoop fuel pos value endT cases else unexpected tok
-      else if tok.typ == .tCase || tok.typ == .tDefault then do
-        let c ← caseLoop fuel tok []
-        switchLoop fuel pos value endT (cases.append (.cons c .nil))
+        -- ignore spaces between tags. text is an error though (reported at the text, /repo ac1c871).
+        if allSpace tok.val then switchLoop fuel pos value endT sawDefault cases else unexpected (atTextStart tok)
+      else if tok.typ == .tCase || tok.typ == .tDefault then
+        if tok.typ == .tDefault && sawDefault then unexpected tok
+        else do
+          let c ← caseLoop fuel tok []
+          switchLoop fuel pos value endT (sawDefault || tok.typ == .tDefault) (cases.append (.cons c .nil))
       else if tok.typ == endT then do
         let _ ← expect .tRightDelim
         pure (.switch pos value cases)
-      else if tok.typ == .tComment then switchLoop fuel pos value endT cases
+      else if tok.typ == .tComment then switchLoop fuel pos value endT sawDefault cases
       else unexpected tok
 
   /-- `parseCase`: "case" (or "default") has just been read -/
@@ -991,7 +996,7 @@ mutual
     | fuel + 1, initial =>
       if initial.typ == .tText then do
         let text ← rawtextP initial.val true true
-        if !text.isEmpty then unexpected initial
+        if !text.isEmpty then unexpected (atTextStart initial)   -- at the stray text, not at its end (/repo ac1c871)
         else do
           let nxt ← nextNonComment fuel
           orphanLoop fuel nxt
@@ -1021,7 +1026,8 @@ mutual
           let hasPlural := children.any fun c => match c with
             | .plural .. => true
             | _ => false
-          if hasPlural && children.length != 1 then errorf
+          -- (found once the whole message has been read: reported at the {msg}, /repo ac1c871)
+          if hasPlural && children.length != 1 then errorfAt token.pos
           else do
             let _ ← expect .tRightDelim
             pure (.msg token.pos ((lookup attrs kMeaning).getD []) desc body)
@@ -1057,10 +1063,9 @@ def parseFile (items : List Item) : Except FErr (List Node) :=
   | .error e => .error e
 
 /-- What a caller of `parse.SoyFile` can observe about the lexer goroutine it started:
-    * `drainCalled` — `tree.recover` ran `t.lex.drain()`: on every error except a Go runtime
-      error, which it re-panics BEFORE draining.  `SoyFile` does NOT drain after a successful
-      parse: it relies on having received the EOF item, after which the lexer closes the
-      channel and exits;
+    * `drainCalled` — `t.lex.drain()` ran: in `tree.recover` on every error except a Go runtime
+      error, which it re-panics BEFORE draining, and (since /repo d0c22f5) in `SoyFile` itself
+      after a successful parse;
     * `received` — how many items the parser took from the channel (known on success);
     * `drained` — the lexer goroutine can finish: drained, or every item was received. -/
 structure FileOutcome where
@@ -1073,8 +1078,9 @@ def fileEntry (items : List Item) : FileOutcome :=
   let init : FState := { p := Parser.initState items }
   match (itemListLoop pf ef (fuelFor items.length) [.tEOF] none .nil).run init with
   | .ok (.list _ nodes, st) =>
-    { result := .ok nodes.toList, drainCalled := false, received := items.length - st.p.rest.length,
-      drained := st.p.rest.isEmpty }
+    -- `t.lex.drain()` before `t.lex = nil` (/repo d0c22f5): the scanner is gone when SoyFile returns
+    { result := .ok nodes.toList, drainCalled := true, received := items.length - st.p.rest.length,
+      drained := true }
   | .ok (_, _) => { result := .error .panic, drainCalled := false, received := 0, drained := false }
   | .error (.err p) => { result := .error (.err p), drainCalled := true, received := 0, drained := true }
   | .error .panic => { result := .error .panic, drainCalled := false, received := 0, drained := false }
